@@ -48,6 +48,12 @@ func (m msgServer) CreateHTLC(
 		return nil, errorsmod.Wrapf(sdkerrors.ErrUnauthorized, "%s is a module account", msg.To)
 	}
 
+	// the HTLC escrow account can never be the recipient: coins claimed to it
+	// would stay in escrow without any open HTLC accounting for them
+	if to.Equals(m.k.accountKeeper.GetModuleAddress(types.ModuleName)) {
+		return nil, errorsmod.Wrapf(sdkerrors.ErrUnauthorized, "%s is the HTLC escrow account", msg.To)
+	}
+
 	ctx := sdk.UnwrapSDKContext(goCtx)
 	id, err := m.k.CreateHTLC(
 		ctx,
